@@ -17,7 +17,8 @@ SHAPES_Q = [
     'pair (int %a) (nat %b)', 'pair int nat', 'pair (int %a) nat', 'pair (int %a) (nat %b) (string %c)', 'pair (int %a) (pair (nat %b) (string %c))',
     'pair (pair (int %a) (nat %b)) (string %c)', 'pair (pair %inner (int %a) (nat %b)) (string %c)', 'pair (int %a) (nat %a)', 'pair (int %x) (pair (nat %x) (string %y))',
     'pair (int :t) (nat :u)', 'pair (nat %a) (pair :point (nat %x) (nat %y))', 'pair (pair :p int nat) (string %c)', 'pair (pair :p (int %a) (nat %b)) (pair :q (string %c) (bytes %d))',
-    'or (pair :l (int %a) (nat %b)) (nat %r)', 'pair :storage (int %a) (pair :inner nat string)', 'pair int nat string bytes', 'pair (pair int nat) (pair string bytes)',
+    'or (pair :l (int %a) (nat %b)) (nat %r)', 'pair (mutez :tez) (mutez :tez) (string %memo)', 'or (nat :id) (or (nat :id) (string %name))', 'pair (int :a) (nat %a)',
+    'pair (int :x) (pair (nat :x) (string :y))', 'pair :storage (int %a) (pair :inner nat string)', 'pair int nat string bytes', 'pair (pair int nat) (pair string bytes)',
     'or (int %a) (nat %b)', 'or (unit %on) (unit %off)', 'or (or (unit %a) (unit %b)) (unit %c)', 'or (or (int %a) (nat %b)) (string %c)',
     'or (or (nat %deposit) (nat %withdraw)) (or (unit %pause) (unit %resume))', 'or int nat', 'or (int %a) nat',
     'option int', 'option (pair (int %a) (nat %b))', 'pair (option %o int) (or %u (int %l) (string %r))',
